@@ -632,6 +632,38 @@ def load_fields(stream: "SupportsRead[bytes]") -> Generator[ParsedField, None, N
         yield ParsedField(number=number, wire_type=wire_type, value=decoded, raw=raw)
 
 
+def _load_fields_sized(
+    stream: "SupportsRead[bytes]", size: int
+) -> Generator[ParsedField, None, None]:
+    """
+    Yield the fields of a message that occupies exactly ``size`` bytes of the stream.
+    Every field counts towards the size, whether or not the reader knows it, and
+    nothing is read once the announced size has been consumed (in particular nothing
+    at all for an empty message).
+    """
+    read = 0
+    if read == size:
+        return
+    for parsed in load_fields(stream):
+        prev = read
+        read += len(parsed.raw)
+        if read > size:
+            raise ValueError(
+                f"Expected message of size {size}, can only read "
+                f"either {prev} or {read} bytes - there is no "
+                "message of the expected size in the stream."
+            )
+        yield parsed
+        # If we have now loaded the expected length of the message, stop
+        if read == size:
+            return
+    raise ValueError(
+        f"Expected message of size {size}, but was only able to "
+        f"read {read} bytes - the stream may have ended too soon,"
+        " or the expected size may have been incorrect."
+    )
+
+
 def parse_fields(value: bytes) -> Generator[ParsedField, None, None]:
     i = 0
     while i < len(value):
@@ -1293,8 +1325,10 @@ class Message(ABC):
         # Got some data over the wire
         self._serialized_on_wire = True
         proto_meta = self._betterproto
-        read = 0
-        for parsed in load_fields(stream):
+        fields = (
+            load_fields(stream) if size is None else _load_fields_sized(stream, size)
+        )
+        for parsed in fields:
             field_name = proto_meta.field_name_by_number.get(parsed.number)
             if not field_name:
                 self._unknown_fields += parsed.raw
@@ -1339,26 +1373,6 @@ class Message(ABC):
                 current.append(value)
             else:
                 setattr(self, field_name, value)
-
-            # If we have now loaded the expected length of the message, stop
-            if size is not None:
-                prev = read
-                read += len(parsed.raw)
-                if read == size:
-                    break
-                elif read > size:
-                    raise ValueError(
-                        f"Expected message of size {size}, can only read "
-                        f"either {prev} or {read} bytes - there is no "
-                        "message of the expected size in the stream."
-                    )
-
-        if size is not None and read < size:
-            raise ValueError(
-                f"Expected message of size {size}, but was only able to "
-                f"read {read} bytes - the stream may have ended too soon,"
-                " or the expected size may have been incorrect."
-            )
 
         return self
 
